@@ -215,3 +215,17 @@ package labels
 //@   assert at "numArrayBytes := b.Size.Prod() * 8": forall k int :: 0 <= k && k < 8 ==> octants[k] != nil
 //@   assert at "result, _ = b.MakeLabelVolume()": exists k int :: 0 <= k && k < 8 && octants[k] == nil
 //@   assert at "downresArray(uint64array, result, vx, vy, vz, size)": octants[i] != nil && vx == ((int32(i) & 1) * b.Size[0]) >> 1 && vy == (((int32(i) >> 1) & 1) * b.Size[1]) >> 1 && vz == (((int32(i) >> 2) & 1) * b.Size[2]) >> 1
+
+// MakeLabelVolume (C09, decoder side of the block codec): the label of voxel (x, y, z) of sub-block
+// (sx, sy, sz) is written at linear position ((sz*8+z)*Y + (sy*8+y))*X + sx*8 + x of the output - the
+// documented (x,y,z)-order of a block of size X*Y*Z, for non-cubic blocks too (wrap-around int32
+// arithmetic on both sides: pure ring identities).
+//@ func Block.MakeLabelVolume
+//@   prop C09
+//@   safety_off
+//@   calls_havoc
+//@   modifies *
+//@   invariant loop 6: 0 <= z && z <= 8 && lblpos == sz*8*b.Size[0]*b.Size[1] + sy*8*b.Size[0] + sx*8 + z*b.Size[0]*b.Size[1]
+//@   invariant loop 7: 0 <= y && y <= 8 && lblpos == sz*8*b.Size[0]*b.Size[1] + sy*8*b.Size[0] + sx*8 + z*b.Size[0]*b.Size[1] + y*b.Size[0]
+//@   invariant loop 8: 0 <= x && x <= 8 && lblpos == sz*8*b.Size[0]*b.Size[1] + sy*8*b.Size[0] + sx*8 + z*b.Size[0]*b.Size[1] + y*b.Size[0] + x
+//@   assert at "lblpos++": lblpos == (sz*8 + z)*b.Size[0]*b.Size[1] + (sy*8 + y)*b.Size[0] + sx*8 + x
